@@ -112,6 +112,8 @@ type pinterp struct {
 	globals    map[types.Object]pval
 	// the call being evaluated is used for its value (assigned or passed on), not as a statement
 	wantValue bool
+	// a numeric type change: the primitive before and after (values of dsl.PrimitiveDefinition constants)
+	oldPrim, newPrim string
 }
 
 func (pi *pinterp) fail(what string) {
@@ -162,11 +164,14 @@ func (pi *pinterp) eval(info *types.Info, e ast.Expr, env *penv) pval {
 				return pval{k: pvBool, b: x.Name == "true"}
 			}
 			if nt := core.NamedOf(o.Type()); nt != nil && nt.Obj().Name() == "BinaryOperator" {
-				return pval{k: pvOp, s: o.Name()}
+				return pi.mkOp(o.Name())
 			}
 			if o.Val().Kind() == constant.Int {
 				n, _ := constant.Int64Val(o.Val())
 				return pval{k: pvInt, n: n}
+			}
+			if o.Val().Kind() == constant.String {
+				return pval{k: pvString, s: constant.StringVal(o.Val())}
 			}
 			if o.Val().Kind() == constant.Bool {
 				return pval{k: pvBool, b: constant.BoolVal(o.Val())}
@@ -209,6 +214,12 @@ func (pi *pinterp) eval(info *types.Info, e ast.Expr, env *penv) pval {
 				return fv
 			}
 			return pval{}
+		}
+		if base.k == pvType && x.Sel.Name == "ResolvedDefinition" && (base.s == "old" || base.s == "new") {
+			if base.s == "old" {
+				return pval{k: pvString, s: pi.oldPrim}
+			}
+			return pval{k: pvString, s: pi.newPrim}
 		}
 		if base.k == pvNode && base.s == "parent" && x.Sel.Name == "ResolvedType" && pi.resultKind != "" {
 			return pval{k: pvType, s: pi.resultKind}
@@ -668,6 +679,13 @@ func (pi *pinterp) call(info *types.Info, ce *ast.CallExpr, env *penv) []pval {
 			}
 			pi.events = append(pi.events, "emit:"+txt)
 			return nil
+		case (f.Name() == "OldType" || f.Name() == "NewType") && len(ce.Args) == 0 && pi.oldPrim != "":
+			if se, ok := ast.Unparen(ce.Fun).(*ast.SelectorExpr); ok {
+				if recv := pi.eval(info, se.X, env); recv.k == pvNode && recv.s == "change" {
+					return []pval{{k: pvType, s: strings.ToLower(strings.TrimSuffix(f.Name(), "Type"))}}
+				}
+			}
+			return []pval{{}}
 		case f.Name() == "Precedence":
 			if se, ok := ast.Unparen(ce.Fun).(*ast.SelectorExpr); ok {
 				recv := pi.eval(info, se.X, env)
@@ -703,12 +721,22 @@ func (pi *pinterp) call(info *types.Info, ce *ast.CallExpr, env *penv) []pval {
 				// function literal; anything else (identifier helpers, type syntax, ...) has no effect on the trace
 				relevant := false
 				for _, a := range ce.Args {
-					if v := pi.eval(info, a, env); v.k == pvNode || v.k == pvOp || v.k == pvType || (v.k == pvClosure && v.lit == nil) || (v.k == pvBool && len(ce.Args) > 1) {
+					if v := pi.eval(info, a, env); (v.k == pvNode && v.s != "change") || v.k == pvOp || (v.k == pvType && (v.s == "int" || v.s == "other")) || (v.k == pvClosure && v.lit == nil) || (v.k == pvBool && len(ce.Args) > 1 && f.Pkg() != nil && !strings.HasSuffix(f.Pkg().Path(), "/pkg/dsl")) {
 						relevant = true
 					}
 				}
 				if recvVal.k == pvOp || recvVal.k == pvNode {
 					relevant = true
+				}
+				// helpers about a primitive type (GetPrimitiveKind, GetPrimitiveWidth, IsSignedPrimitive) given a known one
+				if sig, ok := f.Type().(*types.Signature); ok && sig.Params().Len() == len(ce.Args) {
+					for i, a := range ce.Args {
+						if nt := core.NamedOf(sig.Params().At(i).Type()); nt != nil && nt.Obj().Name() == "PrimitiveDefinition" {
+							if v := pi.eval(info, a, env); v.k == pvString {
+								relevant = true
+							}
+						}
+					}
 				}
 				if relevant {
 					return pi.apply(dinfo, d.Type, d.Body, &penv{vars: map[types.Object]pval{}}, info, ce.Args, env, recvObj, recvVal)
